@@ -426,10 +426,8 @@ static inline double cmb_random_gamma(const double shape, const double scale)
     cmb_assert_release(shape > 0.0);
     cmb_assert_release(scale > 0.0);
 
-    const double r = (shape >= 1.0) ?
-        scale * cmb_random_std_gamma(shape) :
-        scale * (cmb_random_std_gamma(shape + 1.0)
-                 * pow(cmb_random(), 1.0 / shape));
+    /* cmb_random_std_gamma() handles shape < 1 itself */
+    const double r = scale * cmb_random_std_gamma(shape);
 
     cmb_assert_debug(r >= 0.0);
     return r;
